@@ -403,9 +403,11 @@ def main(argv=None):
 
 def write_evidence(prop, tier, seed, pdef, plan, results, unit_info, undecided, violations, known_hits, notes, wall):
     level = load_manifest_level(prop)
-    obligations = sum(r.n_checks for r in results)
+    # canaries (false claims that must fail) are vacuity guards, not obligations: they are listed under harnesses[] only
+    real = [r for r in results if r.harness.expect == "success"]
+    obligations = sum(r.n_checks for r in real)
     discharged = sum(r.n_success + sum(1 for c in r.checks if c.status == "UNREACHABLE" and ".cover." not in c.name)
-                     for r in results if r.outcome == "success")
+                     for r in real if r.outcome == "success")
     nontrivial = set()
     for r in results:
         if r.outcome == "success" and r.harness.expect == "success":
@@ -456,7 +458,8 @@ def write_evidence(prop, tier, seed, pdef, plan, results, unit_info, undecided, 
             "discharged": discharged,
             "checker_cmd": "cargo kani -p <crate> [-Z function-contracts -Z stubbing] --harness <h> --exact  (one CBMC run per harness; see harnesses[].log)",
             "trusted_base": trusted,
-            "evaluations": len(results),
+            "evaluations": len(real),
+            "canaries_failed_as_required": sum(1 for r in results if r.harness.expect == "fail" and r.outcome == "success"),
             "distinct_nontrivial": len(nontrivial),
             "rule": "one evaluation = one Kani harness (a contract proof or a harness-level postcondition over symbolic inputs); "
                     "distinct_nontrivial counts distinct (unit, harness, check) obligations that CBMC reported SUCCESS and reachable "
